@@ -62,11 +62,11 @@ func (b *bounded) repr(v *ds.VMValue, depth int) {
 	case ds.VMTypeString:
 		s, _ := v.ReadString()
 		if len(s) > 4096 {
-			h := 0
+			h := uint64(14695981039346656037) // FNV-1a
 			for i := 0; i < len(s); i++ {
-				h = h*31 + int(s[i])
+				h = (h ^ uint64(s[i])) * 1099511628211
 			}
-			b.sb.WriteString(fmt.Sprintf("s<%d bytes, h%x>", len(s), uint32(h)) + strconv.Quote(s[:64]))
+			b.sb.WriteString(fmt.Sprintf("s<%d bytes, h%016x>", len(s), h) + strconv.Quote(s[:64]))
 			return
 		}
 		b.sb.WriteString("s" + strconv.Quote(s))
